@@ -24,6 +24,7 @@ import (
 	"os"
 	"path"
 	"path/filepath"
+	"sort"
 	"strings"
 
 	"github.com/pkg/errors"
@@ -135,7 +136,21 @@ func (cfg *Configuration) renderResources(ch *chart.Chart, values chartutil.Valu
 	// look for terminating NOTES.txt. We also remove it from the files so that we don't have to skip
 	// it in the sortHooks.
 	var notesBuffer bytes.Buffer
-	for k, v := range files {
+	// Visit the rendered files in a fixed order (parent charts before their subcharts, then by
+	// path) so that the notes of several charts are always concatenated in the same order.
+	notesKeys := make([]string, 0, len(files))
+	for k := range files {
+		notesKeys = append(notesKeys, k)
+	}
+	sort.Slice(notesKeys, func(i, j int) bool {
+		di, dj := strings.Count(notesKeys[i], "/"), strings.Count(notesKeys[j], "/")
+		if di != dj {
+			return di < dj
+		}
+		return notesKeys[i] < notesKeys[j]
+	})
+	for _, k := range notesKeys {
+		v := files[k]
 		if strings.HasSuffix(k, notesFileSuffix) {
 			if subNotes || (k == path.Join(ch.Name(), "templates", notesFileSuffix)) {
 				// If buffer contains data, add newline before adding more
